@@ -288,6 +288,7 @@ type c19Op struct {
 	Pid      string // proposal voted / thawed / created
 	Height   int64  // auto: block height
 	Refused  bool   // the transaction was refused: nothing may change
+	Co       *Acct  // co-signer: a nominated candidate other than the initiator
 	PropArgs *c19Prop
 }
 
@@ -378,8 +379,17 @@ func c19Justify(op *c19Op, pre, post *govView, m *c19Model) (*c19Eff, *c19Fail) 
 	downBy := map[string][]string{}      // account|type -> proposals whose records back the release
 	if !op.Refused {
 		switch op.Kind {
-		case "propose", "vote", "stake":
+		case "propose", "vote", "stake", "tnominate", "tvote":
 			allowedUp[op.From] = true
+		case "trevoke", "trevokevote":
+			// the real $tdpos revocations: only what THIS initiator locked for THIS candidate comes back
+			for _, k := range sortedKeys(m.Rec) {
+				if strings.HasPrefix(k, op.Pid+"|"+op.From+"|") && m.Rec[k].Sign() > 0 {
+					lk := k[len(op.Pid)+1:]
+					allowedDown[lk] = new(big.Int).Add(zget(allowedDown, lk), m.Rec[k])
+					downBy[lk] = append(downBy[lk], op.Pid)
+				}
+			}
 		case "unstake":
 			for _, k := range sortedKeys(m.Rec) {
 				if strings.HasPrefix(k, "stake|"+op.From+"|") && m.Rec[k].Sign() > 0 {
